@@ -16,4 +16,5 @@ mod attrs;
 mod dirs;
 mod misc;
 mod children;
+mod more;
 mod canary;
